@@ -88,6 +88,11 @@ def setup_worker():
         hy.gensym()
         hy.gensym("x-y")
     hy.mangle("a-b")
+    # the reader and the importer too (reader actions and the source import are part of some runs): everything they
+    # initialise lazily must already be there, or the first run that uses them would see other yield points
+    for _ in range(2):
+        hy.read("_hy_gensym_q_1")
+        hy.read("(a-b [1 2] \"s\")")
     _state["hy"] = hy
     _state["adopted"] = adopted
     code = hy.gensym.__code__
@@ -108,6 +113,8 @@ def setup_worker():
     _state["gensym_name"] = code.co_name
     with T.patched_locks():
         _state["warm_counts"] = T.warm_trace(lambda: hy.gensym("w"), {_state["file"]})
+    _import_from_source()
+    _import_from_source()
 
 
 def plan(tier):
